@@ -48,7 +48,7 @@ def gen_spec(rng, maxdim=3, maxn=6, polar_ok=True, kinds=('reg', 'sep', 'uns'), 
         ndim = 2
     if bits is None:
         bits = int(rng.choice([0, 1, 3, 6]))
-    spec = {'sys': sysm, 'kind': kind, 'int': False}
+    spec = {'sys': sysm, 'kind': kind, 'int': False, 'lowbits': bits <= 3}
     if kind == 'reg':
         dims = [int(rng.integers(1, maxn + 1)) for _ in range(ndim)]
         if rng.random() < 0.3:
@@ -159,19 +159,142 @@ def build(spec, pool=None):
             w = pool.get(w)
         cls = hcipy.CartesianGrid if spec['sys'] == 'c' else hcipy.PolarGrid
         return cls(coords, w)
-    dt = 'int64' if spec.get('int') else 'float64'
+    forms = spec.get('forms') or {}
+    cf = 'int64' if spec.get('int') is True else (spec.get('int') or forms.get('coord', 'float64'))
     if spec['kind'] == 'reg':
         d, n, z = spec['data']
-        coords = hcipy.RegularCoords(np.array(d, dtype=dt), np.array(n, dtype='int64'), np.array(z, dtype=dt))
+        coords = hcipy.RegularCoords(as_form(d, cf, scalar_ok=True), dims_form(n, forms.get('dims', 'int64')), as_form(z, cf, scalar_ok=True))
     elif spec['kind'] == 'sep':
-        coords = hcipy.SeparatedCoords([np.array(a, dtype=dt) for a in spec['data']])
+        coords = hcipy.SeparatedCoords(outer_form([as_form(a, cf) for a in spec['data']], forms.get('outer')))
     else:
-        coords = hcipy.UnstructuredCoords([np.array(a, dtype=dt) for a in spec['data']])
+        coords = hcipy.UnstructuredCoords(outer_form([as_form(a, cf) for a in spec['data']], forms.get('outer')))
     w = spec['w']
+    wf = forms.get('w', 'float64')
     if isinstance(w, list):
-        w = np.array(w, dtype='float64')
+        w = as_form(w, wf if wf in ARRAY_FORMS else 'float64')
+    elif w is not None:
+        w = scalar_form(w, wf)
     cls = hcipy.CartesianGrid if spec['sys'] == 'c' else hcipy.PolarGrid
     return cls(coords, w)
+
+
+# ---------------------------------------------------------------------------------------------
+# argument forms: dtype / container of every constructor and operation argument
+
+INT_DTYPES = ['int64', 'int32', 'int16', 'int8', 'uint8', 'uint16', 'uint32', 'uint64']
+ARRAY_FORMS = ['float64', 'float32', 'longdouble', 'list', 'tuple']
+SCALAR_FORMS = ['pyfloat', 'npfloat64', 'npfloat32', '0d', 'len1', 'list1', 'pyint', 'npint64', '0dint']
+VECTOR_FORMS = ['float64', 'float32', 'longdouble', 'list', 'tuple']
+
+
+def as_form(values, form, scalar_ok=False):
+    """A sequence of numbers in the requested dtype / container.  Scalar forms (regular delta / zero
+    with all entries equal) fall back to float64 arrays when the entries differ."""
+    values = [float(v) for v in values]
+    if form in ('float64', 'float32', 'longdouble'):
+        return np.array(values, dtype=form)
+    if form in INT_DTYPES:
+        return np.array([int(v) for v in values], dtype=form)
+    if form == 'bool':
+        return np.array([bool(v) for v in values], dtype=bool)
+    if form == 'pyintlist':
+        return [int(v) for v in values]
+    if form == 'list':
+        return list(values)
+    if form == 'tuple':
+        return tuple(values)
+    if scalar_ok and len(set(values)) == 1:
+        return scalar_form(values[0], form)
+    return np.array(values, dtype='float64')
+
+
+def scalar_form(x, form):
+    x = float(x)
+    if form in ('pyint', 'npint64', '0dint') and not x.is_integer():
+        form = {'pyint': 'pyfloat', 'npint64': 'npfloat64', '0dint': '0d'}[form]
+    if form == 'pyfloat':
+        return x
+    if form == 'npfloat64':
+        return np.float64(x)
+    if form == 'npfloat32':
+        return np.float32(x)
+    if form == '0d':
+        return np.array(x)
+    if form == 'len1':
+        return np.array([x])
+    if form == 'list1':
+        return [x]
+    if form == 'pyint':
+        return int(x)
+    if form == 'npint64':
+        return np.int64(int(x))
+    if form == '0dint':
+        return np.array(int(x))
+    return x
+
+
+def dims_form(n, form):
+    n = [int(v) for v in n]
+    if form in INT_DTYPES:
+        return np.array(n, dtype=form)
+    if form in ('float64', 'float32'):
+        return np.array(n, dtype=form)
+    if form == 'tuple':
+        return tuple(n)
+    if form == 'scalar' and len(n) == 1:
+        return n[0]
+    if form == 'npscalar' and len(n) == 1:
+        return np.int32(n[0])
+    return list(n)
+
+
+def outer_form(arrs, form):
+    return tuple(arrs) if form == 'tuple' else list(arrs)
+
+
+def op_arg(arg):
+    """The Python object passed to scale()/shift() for an op argument ['s'|'v', value(s), form?]."""
+    form = arg[2] if len(arg) > 2 else None
+    if arg[0] == 's':
+        return scalar_form(arg[1], form or 'pyfloat')
+    return as_form(arg[1], form or 'float64')
+
+
+def int_form(rng, spec):
+    """an integer (or bool) dtype / container able to hold the (integral) values of the spec"""
+    vals = spec['data'][0] + spec['data'][2] if spec['kind'] == 'reg' else [v for a in spec['data'] for v in a]
+    choices = ['int64', 'int32', 'int16', 'pyintlist']
+    if all(-128 <= v <= 127 for v in vals):
+        choices.append('int8')
+    if all(v in (0.0, 1.0) for v in vals) and spec['kind'] != 'reg':
+        choices += ['bool']         # (unsigned / bool regular coordinates cannot be negated by reverse(): outside the quantifier)
+    return str(rng.choice(choices))
+
+
+def validate(g):
+    """Raises whatever the grid raises when asked for its representation and points."""
+    snap(g)
+    points(g)
+
+
+def gen_forms(rng, spec):
+    """Choose dtypes / containers for the constructor arguments of a spec (values stay the same).
+    float32 is only chosen for specs flagged `lowbits` (few significant bits, so that float32
+    arithmetic on them stays exact over a whole history)."""
+    forms = {}
+    cforms = ['float64', 'longdouble', 'list', 'tuple'] + (['float32', 'float32'] if spec.get('lowbits') else [])
+    if spec['kind'] == 'reg':
+        forms['dims'] = str(rng.choice(INT_DTYPES + ['pyint', 'tuple', 'float64', 'float32', 'scalar', 'npscalar']))
+        cforms += ['pyfloat', '0d', 'npfloat64'] + (['npfloat32'] if spec.get('lowbits') else [])
+    forms['coord'] = str(rng.choice(cforms))
+    forms['outer'] = str(rng.choice(['list', 'tuple']))
+    if isinstance(spec['w'], list):
+        forms['w'] = str(rng.choice(['float64', 'longdouble', 'list', 'tuple'] + (['float32'] if spec.get('lowbits') else [])))
+    elif spec['w'] is not None:
+        forms['w'] = str(rng.choice(['pyfloat', 'npfloat64', '0d', 'pyint'] + (['npfloat32'] if spec.get('lowbits') else [])))
+    spec['forms'] = forms
+    spec['f32'] = 'float32' in (forms.get('coord'), forms.get('w')) or forms.get('coord') == 'npfloat32' or forms.get('w') == 'npfloat32'
+    return spec
 
 
 def w_text(w):
